@@ -56,6 +56,29 @@ def gen(rng, tier):
         out.append(case("topologies", n, False, 1, 0))
     for n in range(0, rmax + 1):
         out.append(case("topologies", n, True, 1, 0))
+    # math/rand itself on crafted streams: Int31n rejection loop, Float64 retry (x >= 2^63-512)
+    top = 2 ** 63
+    for _ in range({"quick": 40, "thorough": 400, "search": 20}[tier]):
+        plan, raw = [], []
+        for _ in range(rng.randint(1, 8)):
+            if rng.random() < 0.4:
+                plan.append(0)
+                while rng.random() < 0.5:
+                    raw.append(top - 1 - rng.randrange(0, 512))          # rounds to 1.0: retry
+                raw.append(rng.choice([top - 513, top - 513 - rng.randrange(0, 2048), rng.randrange(0, top),
+                                       rng.randrange(0, 2 ** 53), 2 ** 53 + rng.randrange(0, 8), 0]))
+            else:
+                b = rng.choice([1, 2, 3, 5, 6, 7, 10, 12, 100, 1000, 1023, 1024, 1500])   # the judge's bounds are unary nats
+                plan.append(b)
+                if b & (b - 1):
+                    mx = 2 ** 31 - 1 - (2 ** 31 % b)
+                    while rng.random() < 0.5 and mx < 2 ** 31 - 1:
+                        raw.append((rng.randrange(mx + 1, 2 ** 31) << 32) | rng.randrange(0, 2 ** 32))   # rejected
+                    raw.append((rng.randrange(0, mx + 1) << 32) | rng.randrange(0, 2 ** 32))
+                else:
+                    raw.append(rng.randrange(0, top))
+        out.append({"sx": sx({"gen": Sym("randlib"), "n": 0, "rooted": False, "rawin": raw, "plan": plan}),
+                    "meta": {"gen": "randlib", "n": len(plan), "rooted": False}})
     # enumerator with given names (and a wrong number of names)
     out.append(case("topologies", 5, False, 1, 0, ["e", "b", "a", "d", "c"]))
     out.append(case("topologies", 4, True, 1, 0, ["z", "y", "x", "w"]))
